@@ -1687,3 +1687,189 @@ func ruleAlienChunks(c *Ctx, rule string) {
 		c.Check(good, rule, "chunk reader on type "+tcase, p.Pos(cr.Pos()), fmt.Sprintf("%d track / %d skipped partitions: MTrk starts a track after exactly 8 bytes; any other type is skipped by exactly its declared 32-bit length and another chunk header is expected", nTrack, nSkip), why)
 	}
 }
+
+// ---------------------------------------------------------------- delta / option plumbing (C01.7)
+
+// rulePlumbing: (a) SetDelta(d); Write(m) puts VLQ(d) in front of the event and clears the pending delta;
+// (b) the writer constructor honours NoRunningStatus; (c) the reader's event function stores the decoded delta
+// into the field that the track collector hands to Track.Add / Track.Close; (d) Track.Add gives the delta to the
+// first message only.
+func rulePlumbing(c *Ctx, rule string) {
+	p := c.P
+	wT := p.namedType("smf", "writer")
+	smfT := p.namedType("smf", "SMF")
+	trackT := p.namedType("smf", "Track")
+	if wT == nil || smfT == nil || trackT == nil {
+		c.Unk(rule, "smf writer/SMF/Track types", "-", "not found")
+		return
+	}
+	setDelta := p.MethodOf(types.NewPointer(wT), "SetDelta")
+	write := p.MethodOf(types.NewPointer(wT), "Write")
+	newW := p.Func("smf", "newWriter")
+	if setDelta != nil && write != nil {
+		c.Fn(FuncName(write))
+		ex := NewExec(p)
+		st := ex.NewState()
+		wp, _ := mkWriterObj(ex, st, p, mkConst(1, 16, false), mkConst(1, 16, false), &IfaceV{Nil: true})
+		ex.setField(st, wp, "headerWritten", &BoolV{Known: true, Val: true})
+		d := mkSym(ex.syms.Get("delta", 32, false))
+		st.refineSym(d.T.Syms[0], 128, 16383)
+		k8 := func(v int64) Val { return mkConst(v, 8, false) }
+		msg := ex.mkBytes(st, "m", []Val{k8(0x91), dataTok(ex, st, "k"), dataTok(ex, st, "v")}, false, 0)
+		ok := true
+		why := ""
+		n := 0
+		for _, o1 := range ex.Call(st, setDelta, []Val{wp, d}, nil) {
+			for _, o := range ex.Call(o1.St, write, []Val{wp, msg}, nil) {
+				n++
+				if o.Panic {
+					ok = false
+					why = o.Msg
+					continue
+				}
+				ev, _ := o.Ret[0].(*IfaceV)
+				if ev == nil || !ev.Nil {
+					continue
+				}
+				cv, _ := ex.getField(o.St, wp, "currentChunk.data")
+				sl, _ := cv.(*SliceV)
+				got, okg := ex.sliceSegs(o.St, sl)
+				ms, _ := ex.sliceSegs(o.St, msg)
+				want := append([]Seg{{Elems: intVals(vlqSpecBytes(o.St, d, 2))}}, ms...)
+				if !okg || !segsEqual(got, normSegs(want), o.St.sameVal) {
+					ok = false
+					why = "after SetDelta(d); Write(m) the chunk holds " + arrayStringIn(o.St, &ArrayV{Segs: got}) + ", expected VLQ(d) followed by the message"
+				}
+				dv, _ := ex.getField(o.St, wp, "deltatime")
+				if di, _ := dv.(*IntV); di == nil || !o.St.sameInt(di, mkConst(0, 32, false)) {
+					ok = false
+					why = "the pending delta is not cleared after the event (it would be added to the next event as well)"
+				}
+			}
+		}
+		c.Check(ok && n > 0, rule, "writer: SetDelta + Write puts the delta in front of the event once", p.Pos(write.Pos()), "chunk = VLQ(delta) ++ event; pending delta reset to 0", why)
+	} else {
+		c.Unk(rule, "writer.SetDelta / Write", "-", "not found")
+	}
+	if newW != nil {
+		c.Fn(FuncName(newW))
+		for _, noRS := range []bool{false, true} {
+			ex := NewExec(p)
+			st := ex.NewState()
+			sp := ex.newZeroObject(st, smfT)
+			ex.setField(st, sp, "NoRunningStatus", &BoolV{Known: true, Val: noRS})
+			ok := true
+			why := ""
+			for _, o := range ex.Call(st, newW, []Val{sp, &IfaceV{Unk: true, NonNil: true}}, nil) {
+				if o.Panic {
+					ok = false
+					why = o.Msg
+					continue
+				}
+				wp, _ := o.Ret[0].(*PtrV)
+				rw, _ := ex.getField(o.St, wp, "runningWriter")
+				iv, _ := rw.(*IfaceV)
+				if iv == nil || iv.Unk || iv.Nil != noRS {
+					ok = false
+					why = fmt.Sprintf("NoRunningStatus=%v but the writer's running-status stage is nil=%v", noRS, iv != nil && iv.Nil)
+				}
+				ty, _ := ex.getField(o.St, wp, "currentChunk.typ")
+				if tsl, _ := ty.(*SliceV); tsl != nil {
+					if el, okE := ex.sliceElems(o.St, tsl); okE {
+						want := []Val{mkConst('M', 8, false), mkConst('T', 8, false), mkConst('r', 8, false), mkConst('k', 8, false)}
+						if !segsEqual([]Seg{{Elems: el}}, []Seg{{Elems: want}}, o.St.sameVal) {
+							ok = false
+							why = "track chunks are not typed MTrk"
+						}
+					}
+				}
+			}
+			c.Check(ok, rule, fmt.Sprintf("writer constructor honours NoRunningStatus=%v, chunk type MTrk", noRS), p.Pos(newW.Pos()), "running-status stage present iff compression is on; chunk type MTrk", why)
+		}
+	}
+	// (c) reader: decoded delta -> deltatime field -> Track.Add / Close arguments
+	rf := p.Func("smf", "ReadFrom")
+	dec := findVlqDecoder(p)
+	okStore, okUse := false, 0
+	if rf != nil && dec != nil {
+		for _, f := range p.Reachable(rf) {
+			for _, b := range f.Blocks {
+				for _, in := range b.Instrs {
+					switch x := in.(type) {
+					case *ssa.Store:
+						if fv := fieldVar(x.Addr); fv != nil && fv.Name() == "deltatime" {
+							// value must be the first result of the VLQ decoder (or 0 reset)
+							if ex, ok := x.Val.(*ssa.Extract); ok && ex.Index == 0 {
+								if call, ok := ex.Tuple.(*ssa.Call); ok && call.Common().StaticCallee() == dec {
+									okStore = true
+								}
+							}
+						}
+					case *ssa.Call:
+						if cal := x.Common().StaticCallee(); cal != nil && (cal.Name() == "Add" || cal.Name() == "Close") && namedTypeName(cal.Signature.Recv().Type()) == "Track" && f.Name() != "ConvertToSMF1" {
+							if l, ok := x.Common().Args[1].(*ssa.UnOp); ok {
+								if fv := fieldVar(l.X); fv != nil && fv.Name() == "deltatime" {
+									okUse++
+								}
+							}
+						}
+					}
+				}
+			}
+		}
+	}
+	c.Check(okStore && okUse >= 2, rule, "reader: decoded delta reaches Track.Add and Track.Close", "-", "deltatime <- VLQ decoder result; Add(deltatime, msg) and Close(deltatime) in the track collector", fmt.Sprintf("the decoded delta time does not flow unchanged into the collected events (stored from the VLQ decoder: %v, used by Add/Close: %d)", okStore, okUse))
+	// (d) Track.Add: first message gets the delta, the following ones 0
+	if add := p.MethodOf(types.NewPointer(trackT), "Add"); add != nil {
+		c.Fn(FuncName(add))
+		ex := NewExec(p)
+		st := ex.NewState()
+		tobj := ex.newObj(st, ex.zeroOf(trackT), trackT)
+		d := mkSym(ex.syms.Get("delta", 32, false))
+		k8 := func(v int64) Val { return mkConst(v, 8, false) }
+		m1 := ex.mkBytes(st, "m1", []Val{k8(0x90), dataTok(ex, st, "a"), dataTok(ex, st, "b")}, false, 0)
+		m2 := ex.mkBytes(st, "m2", []Val{k8(0x80), dataTok(ex, st, "c"), dataTok(ex, st, "d")}, false, 0)
+		mid := ex.newObj(st, &ArrayV{Elem: m1Type(add), Segs: []Seg{{Elems: []Val{m1, m2}}}}, nil)
+		two := mkConst(2, 64, true)
+		ok := true
+		why := ""
+		n := 0
+		for _, o := range ex.Call(st, add, []Val{&PtrV{Obj: tobj}, d, &SliceV{Obj: mid, Off: mkConst(0, 64, true), Len: two, Cap: two}}, nil) {
+			n++
+			if o.Panic {
+				ok = false
+				why = o.Msg
+				continue
+			}
+			tsl, _ := o.St.heap[tobj].(*SliceV)
+			evs, okE := ex.sliceElems(o.St, tsl)
+			if !okE || len(evs) != 2 {
+				ok = false
+				why = fmt.Sprintf("Add(delta, m1, m2) on an empty track stores %d events", len(evs))
+				continue
+			}
+			for i, wantD := range []*IntV{d, mkConst(0, 32, false)} {
+				ev, _ := evs[i].(*StructV)
+				dl, _ := ev.Fields[fieldIndex(ev.T, "Delta")].(*IntV)
+				if dl == nil || !o.St.sameInt(dl, wantD) {
+					ok = false
+					why = fmt.Sprintf("event %d of a multi-message Add gets delta %s, expected %s", i, valString(ev.Fields[fieldIndex(ev.T, "Delta")]), wantD)
+				}
+				ms, _ := ev.Fields[fieldIndex(ev.T, "Message")].(*SliceV)
+				wantM := m1
+				if i == 1 {
+					wantM = m2
+				}
+				if ms == nil || ms.Obj != wantM.Obj {
+					ok = false
+					why = "messages of a multi-message Add are stored out of order or altered"
+				}
+			}
+		}
+		c.Check(ok && n > 0, rule, "Track.Add: delta on the first message, 0 on the following, order kept", p.Pos(add.Pos()), "two-message Add on an empty track", why)
+	}
+}
+
+func m1Type(add *ssa.Function) types.Type {
+	return add.Params[2].Type().Underlying().(*types.Slice).Elem()
+}
